@@ -530,6 +530,49 @@ fn unrelated_calls(rng: &mut Rng, keys: &[TKey], iss: &Issuers) {
 	}
 }
 
+/// Directed: the same request imported several times. What `from_der` recovers is a function of the request alone (order
+/// of names included), so the certificates issued from each import have identical to-be-signed bytes.
+fn csr_reimport_directed(ctx: &Ctx, keys: &[TKey], iss: &Issuers) {
+	for n in 0..8usize {
+		let case = CaseId::new("csr-reimport", ctx.seed, n as u64);
+		let key = &keys[n % keys.len()];
+		let ik = &keys[iss.keys[n % 2]];
+		let mut p = CertificateParams::default();
+		p.subject_alt_names = (0..12)
+			.filter_map(|k| format!("name-{}-{}.example.com", n, (k * 7) % 12).try_into().ok().map(rcgen::SanType::DnsName))
+			.collect();
+		p.subject_alt_names.insert(n % 12, rcgen::SanType::IpAddress(std::net::IpAddr::from([10, 0, n as u8, 1])));
+		p.key_usages = vec![rcgen::KeyUsagePurpose::DigitalSignature, rcgen::KeyUsagePurpose::KeyEncipherment];
+		p.extended_key_usages = vec![rcgen::ExtendedKeyUsagePurpose::ServerAuth, rcgen::ExtendedKeyUsagePurpose::ClientAuth, rcgen::ExtendedKeyUsagePurpose::CodeSigning];
+		let text = format!("request with 13 names by key {} imported 6 times, each import issued by issuer {}", key.label, n % 2);
+		ctx.count("eval:csr-reimport");
+		let r = crate::guard(|| -> Result<Option<Vec<Vec<u8>>>, String> {
+			let csr = p.serialize_request(&key.kp).map_err(|e| e.to_string())?;
+			let mut out = Vec::new();
+			for _ in 0..6 {
+				let parsed = match rcgen::CertificateSigningRequestParams::from_der(csr.der()) {
+					Ok(x) => x,
+					Err(_) => return Ok(None),
+				};
+				let cert = parsed.signed_by(&iss.certs[n % 2], &ik.kp).map_err(|e| e.to_string())?;
+				out.push(x509::split_signed_raw(cert.der(), true)?.0);
+			}
+			Ok(Some(out))
+		});
+		match r {
+			Err(pn) => ctx.violation("c15:panic", &case, &text, &pn),
+			Ok(Err(e)) => ctx.violation("c15:refused", &case, &text, &e),
+			Ok(Ok(None)) => ctx.count("csr-reimport:import-refused"),
+			Ok(Ok(Some(v))) => {
+				ctx.count("csr-reimport:sequences");
+				if v.iter().any(|t| *t != v[0]) {
+					ctx.violation("c15:tbs-differs:reimported-request", &case, &text, "importing the same request again gave a certificate with different to-be-signed bytes");
+				}
+			},
+		}
+	}
+}
+
 /// Directed: texts rcgen may refuse or must keep. Distribution-point URIs that are not plain ASCII URIs (non-ASCII,
 /// blanks, upper case, escapes): if an artefact is produced, the object reports the parameters as given - a "helpful"
 /// repair written back into them is an alteration - and the same call twice gives the same to-be-signed bytes.
@@ -604,6 +647,9 @@ pub fn run_c15(ctx: &Ctx, keys: &[TKey], k: usize, thread_counts: &[usize], roun
 	let portable_only = !cfg!(feature = "crypto");
 	if ctx.replay.as_ref().map_or(true, |r| r.workload == "reported-params") {
 		reported_params_directed(ctx, keys, &iss);
+	}
+	if ctx.replay.as_ref().map_or(true, |r| r.workload == "csr-reimport") {
+		csr_reimport_directed(ctx, keys, &iss);
 	}
 	let tab = table(ctx.seed, k, keys.len(), portable_only);
 	let start = std::time::Instant::now();
